@@ -1,5 +1,6 @@
 import Gv.Model.Seq
 import Gv.Model.Compress
+import Gv.Model.Mask
 /-!
 Implementation-shaped model of `align.seqbag` / `align.align` (property C01).
 
@@ -491,5 +492,95 @@ def setAlphabet (alphabet : Int) (b : Bag) : Bag × Bool :=
   match setAlphabetResult alphabet (detectAlphabetBag (b.rows.map (·.seq))) with
   | some a => ({ b with alphabet := a }, false)
   | none => (b, true)
+
+/-! ### `ReverseComplementSequences` -/
+
+/-- write the buffer `s` into the row with pointer identity `i` (Go: the in-place writes through `*seq`) -/
+def setSeqById (i : Nat) (s : Seq) (rows : List Row) : List Row :=
+  rows.map fun r => if r.id == i then { r with seq := s } else r
+
+/-- the loop of `ReverseComplementSequences(names...)`: every name in order is looked up in the name index
+(`SequenceByName`); a name that is not there is skipped; the row found is complemented in place and, only if that
+succeeded, reversed (`revcompSeq` of the C06 model); the first residue without a complement ends the loop with an
+error (that row is left complemented up to the residue) -/
+def revcompNamedBag : List String → Bag → Bag × Bool
+  | [], b => (b, false)
+  | nm :: rest, b =>
+    match getByName b nm with
+    | none => revcompNamedBag rest b
+    | some r =>
+      let rc := revcompSeq r.seq
+      let b' := { b with rows := setSeqById r.id rc.1 b.rows }
+      if rc.2 then (b', true) else revcompNamedBag rest b'
+
+/-- `seqbag.ReverseComplementSequences(names...)`: an error (nothing touched) unless the alphabet is NUCLEOTIDS -/
+def reverseComplementSequences (names : List String) (b : Bag) : Bag × Bool :=
+  if b.alphabet != NUCLEOTIDS then (b, true) else revcompNamedBag names b
+
+/-! ### `DiffWithFirst` and `ReplaceMatchChars`: every row but the first rewritten against the first -/
+
+/-- rewrite every row but the first by `g first row` (Go: loops over `a.seqs` in order, writing in place) -/
+def againstFirst (g : Seq → Seq → Seq) : List (String × Seq) → List (String × Seq)
+  | [] => []
+  | r0 :: rest => r0 :: rest.map fun r => (r.1, g r0.2 r.2)
+
+/-- one row of `DiffWithFirst`: `for l < len(first) { if first[l] == other[l] { other[l] = '.' } }` -/
+def diffSeq (first other : Seq) : Seq :=
+  other.mapIdx fun i c => if i < first.length && first.getD i 0 == c then POINT else c
+
+/-- the loop reads `other[l]` for every `l < len(first)`: a row shorter than the first one is an index panic
+(fewer than two rows: nothing is read) -/
+def diffPanics : List (String × Seq) → Bool
+  | [] => false
+  | r0 :: rest => rest.any fun r => r.2.length < r0.2.length
+
+/-- `align.DiffWithFirst()`; `none` = index panic -/
+def diffWithFirstBag (b : Bag) : Option Bag :=
+  if diffPanics (pairs b) then none
+  else some { b with rows := withSeqs b.rows (againstFirst diffSeq (pairs b)) }
+
+/-- one row of `ReplaceMatchChars` over the cached length `L`:
+`if ref[site] != '.' && seq[site] == '.' { seq[site] = ref[site] }` -/
+def matchSeq (L : Nat) (ref other : Seq) : Seq :=
+  other.mapIdx fun i c => if i < L && ref.getD i 0 != POINT && c == POINT then ref.getD i 0 else c
+
+/-- with at least two rows the loop reads the reference and every other row at every site below the cached length -/
+def matchPanics (L : Nat) : List (String × Seq) → Bool
+  | [] => false
+  | [_] => false
+  | rows => rows.any fun r => r.2.length < L
+
+/-- `align.ReplaceMatchChars()`; `none` = index panic -/
+def replaceMatchCharsBag (b : Bag) : Option Bag :=
+  if matchPanics b.length.toNat (pairs b) then none
+  else some { b with rows := withSeqs b.rows (againstFirst (matchSeq b.length.toNat) (pairs b)) }
+
+/-! ### `Mask`, `MaskOccurences` / `MaskUnique` through the C15 model -/
+
+/-- `align.Mask(refseq, start, length, maskreplace, nogap, noref)`: the C15 model on the rows as they are, with the
+reference sequence looked up in the name index (`GetSequenceByName`) and the cached length; the new residues are written
+in place.  `(b, true)` = an error was returned (nothing touched).  `none` = index panic: every row is accessed at every
+site of the window `[start, min(start+length, cached length))`. -/
+def maskBag (refseq : String) (start len : Int) (mr : MaskRep) (nogap noref : Bool) (b : Bag) : Option (Bag × Bool) :=
+  match maskWithRef (pairs b) b.length b.alphabet refseq start len mr nogap noref ((getByName b refseq).map (·.seq)) with
+  | none => some (b, true)
+  | some ps =>
+    let hi := min (start + len) b.length
+    if start < hi && b.rows.any (fun r => (r.seq.length : Int) < hi) then none
+    else some ({ b with rows := withSeqs b.rows ps }, false)
+
+/-- the C15 model of `MaskOccurences` returns the first `L` residues of every row; the Go loop writes in place, so what a
+row holds beyond the cached length `L` stays -/
+def keepTails (L : Nat) (rows : List Row) (ps : List (String × Seq)) : List (String × Seq) :=
+  List.zipWith (fun r p => (p.1, p.2 ++ r.seq.drop L)) rows ps
+
+/-- `align.MaskOccurences(refseq, maxOccurence, maskreplace)` (`MaskUnique` = `maxOccurence` 1) in the same way; every
+row is read at every site below the cached length -/
+def maskOccBag (refseq : String) (maxOcc : Int) (mr : MaskRep) (b : Bag) : Option (Bag × Bool) :=
+  match maskOccWithRef (pairs b) b.length b.alphabet refseq maxOcc mr ((getByName b refseq).map (·.seq)) with
+  | none => some (b, true)
+  | some ps =>
+    if b.rows.any (fun r => r.seq.length < b.length.toNat) then none
+    else some ({ b with rows := withSeqs b.rows (keepTails b.length.toNat b.rows ps) }, false)
 
 end Gv.Model
